@@ -157,10 +157,48 @@ var (
 // goroutine census.  It never lets a panic of the handler goroutine escape (it records it instead); panics in
 // goroutines started by the code under test kill the process, which is what the worker model observes.
 func (h *Harness) Do(rq Request) Outcome {
-	var out Outcome
 	before := Census()
 	h.Script.ResetLog()
+	out := h.serve(rq)
+	if out.Hang || out.Status == -1 {
+		return out
+	}
+	out.Leaked = AwaitBaseline(before, CensusBound)
+	out.OpenRows = h.Script.OpenRows()
+	return out
+}
 
+// DoConcurrent serves the requests at the same time (a burst of clients) and applies the same observations to
+// each; the goroutine census is taken once around the whole burst and reported with every outcome.
+func (h *Harness) DoConcurrent(rqs []Request) []Outcome {
+	before := Census()
+	h.Script.ResetLog()
+	outs := make([]Outcome, len(rqs))
+	var wg sync.WaitGroup
+	for i := range rqs {
+		wg.Add(1)
+		go func(i int) {
+			defer wg.Done()
+			outs[i] = h.serve(rqs[i])
+		}(i)
+	}
+	wg.Wait()
+	for _, o := range outs {
+		if o.Hang {
+			return outs
+		}
+	}
+	leaked := AwaitBaseline(before, CensusBound)
+	for i := range outs {
+		outs[i].Leaked = leaked
+		outs[i].OpenRows = h.Script.OpenRows()
+	}
+	return outs
+}
+
+// serve runs one request through the router: response, escaped panic, hang; no census.
+func (h *Harness) serve(rq Request) Outcome {
+	var out Outcome
 	ctx, cancel := context.WithCancel(context.Background())
 	defer cancel()
 	var body io.Reader
@@ -228,8 +266,6 @@ wait:
 	}
 	// the client is gone once the response is complete: net/http cancels the request context when ServeHTTP returns
 	cancel()
-	out.Leaked = AwaitBaseline(before, CensusBound)
-	out.OpenRows = h.Script.OpenRows()
 	return out
 }
 
